@@ -37,18 +37,21 @@ VARIABLES pc, mi, r, cfg, wtid, cx, tb, dd, sc, acc, wts,
 vars == <<l, scripts, abs, chal, rng, pc, mi, r, cfg, wtid, cx, tb, dd, sc, acc, wts, allp>>
 avars == <<mi, r, cx, tb, dd, sc, acc, wts, allp>>
 
-Init == /\ l = 1 /\ TInit /\ pc = "idle" /\ mi = 0 /\ r = 0 /\ cfg = <<>> /\ wtid = 0
+Init == /\ l = 1 /\ TInit /\ pc = "idle" /\ mi = 0 /\ r = 0 /\ cfg = 0 /\ wtid = 0
         /\ cx = <<>> /\ tb = <<>> /\ dd = <<>> /\ sc = <<>> /\ acc = <<>> /\ wts = <<>> /\ allp = <<>>
 
-NP == cfg.np
-Mem(i) == cfg.members[i]
-Verifying == cfg.mode # "RecoverOnly"
-MemberOfTid(tid) == CHOOSE i \in 1..Len(cfg.tids) : cfg.tids[i] = tid
-IsMemberTid(tid) == \E i \in 1..Len(cfg.tids) : cfg.tids[i] = tid /\ i <= NP
+\* the call being validated: `cfg` holds the POSITION of its VCall event (the record itself - hundreds of members for a long batch -
+\* stays in the constant Rec instead of being copied into every state)
+Cfg == Rec[cfg]
+NP == Cfg.np
+Mem(i) == Cfg.members[i]
+Verifying == Cfg.mode # "RecoverOnly"
+MemberOfTid(tid) == CHOOSE i \in 1..Len(Cfg.tids) : Cfg.tids[i] = tid
+IsMemberTid(tid) == \E i \in 1..Len(Cfg.tids) : Cfg.tids[i] = tid /\ i <= NP
 
 \* ---- the call ------------------------------------------------------------------------------------
 VCallEv == /\ Is("VCall") /\ pc = "idle"
-           /\ cfg' = Rec[l] /\ TReset /\ wtid' = 0 /\ pc' = "run" /\ l' = l + 1
+           /\ cfg' = l /\ TReset /\ wtid' = 0 /\ pc' = "run" /\ l' = l + 1
            /\ UNCHANGED avars
 
 \* ---- merlin events during the call -----------------------------------------------------------------
@@ -63,19 +66,19 @@ DepOk == \* guard evaluated on the current state for the event about to be consu
          \* contribution of member j = NContrib + 1: an output of a generator built on j's transcript after its responses
          LET j == NContrib + 1 IN
          /\ j <= NP
-         /\ \E rid \in DOMAIN rng : /\ rng[rid].tid = cfg.tids[j]
+         /\ \E rid \in DOMAIN rng : /\ rng[rid].tid = Cfg.tids[j]
                                     /\ T!Responses(Mem(j)) \subseteq rng[rid].absAt
                                     /\ \E f \in 1..Len(rng[rid].fills) : rng[rid].fills[f].tok = e.tok
          /\ (Strict => e.label = "proof" /\ e.len = 8)
     [] e.ev = "RBuild" /\ wtid # 0 /\ e.tid = wtid -> NContrib = NP          \* weight generator after every member
-    [] e.ev = "TNew" -> (Strict /\ ~(\E i \in 1..Len(cfg.tids) : cfg.tids[i] = e.tid)) => e.label = T!WeightLabel
+    [] e.ev = "TNew" -> (Strict /\ ~(\E i \in 1..Len(Cfg.tids) : Cfg.tids[i] = e.tid)) => e.label = T!WeightLabel
     [] OTHER -> TRUE
 
 MerlinEv == /\ pc = "run" /\ l <= NRec
             /\ Rec[l].ev \in {"TNew", "TClone", "TAppend", "TChal", "RBuild", "RRekey", "RFinal", "RFill"}
             /\ DepOk
             /\ TNext
-            /\ wtid' = IF Rec[l].ev = "TNew" /\ ~(\E i \in 1..Len(cfg.tids) : cfg.tids[i] = Rec[l].tid) THEN Rec[l].tid ELSE wtid
+            /\ wtid' = IF Rec[l].ev = "TNew" /\ ~(\E i \in 1..Len(Cfg.tids) : Cfg.tids[i] = Rec[l].tid) THEN Rec[l].tid ELSE wtid
             /\ UNCHANGED <<pc, cfg>> /\ UNCHANGED avars
 
 \* ---- the final MSM: micro-steps per member, then the comparison -------------------------------------
@@ -83,33 +86,40 @@ MaxNM == LET RECURSIVE Mx(_) Mx(i) == IF i = 0 THEN 0 ELSE LET a == Mem(i).n * M
 ZeroSeq(n) == [i \in 1..n |-> Zero21]
 
 \* weight provenance: a non-zero reduction of an output of the weight generator
-WeightFills == UNION { {rng[rid].fills[f].wide : f \in 1..Len(rng[rid].fills)} : rid \in {x \in DOMAIN rng : rng[x].tid = wtid} }
+WeightFills == UNION { {Rec[rng[rid].fills[f].pos].wide : f \in 1..Len(rng[rid].fills)} : rid \in {x \in DOMAIN rng : rng[x].tid = wtid} }
 RECURSIVE ObsFrom(_,_,_)
 ObsFrom(o, tk, i) == IF i > Len(o) THEN Zero21 ELSE IF o[i][1] = tk THEN o[i][2] ELSE ObsFrom(o, tk, i + 1)
 \* the weights of a (long) batch without the per-member arithmetic: w_i, read off the scalar on B_i, is non-zero, is the
 \* reduction of an output of the weight generator (built after every member contributed: MerlinEv), and no two members share one
-WeightsOk == LET RF == {Reduce(f) : f \in WeightFills \ {<<>>}}
-                 W(i) == FSub(Zero21, ObsFrom(Rec[l].obs, Mem(i).tok.B, 1)) IN
-             /\ \A i \in 1..NP : W(i) # Zero21 /\ W(i) \in RF
-             /\ Cardinality({W(i) : i \in 1..NP}) = NP
+\* (two steps: the reductions of the generator's outputs are computed once, into `wts`, then every member is looked up)
+WStart == /\ Is("VMSM") /\ pc = "run" /\ WeightsOnly /\ Rec[l].arith /\ ~CheckArith
+          /\ wts' = {Reduce(f) : f \in WeightFills \ {<<>>}} /\ pc' = "wchk"
+          /\ UNCHANGED <<l, scripts, abs, chal, rng, mi, r, cfg, wtid, cx, tb, dd, sc, acc, allp>>
+WChk == /\ pc = "wchk"
+        /\ LET W(i) == FSub(Zero21, ObsFrom(Rec[l].obs, Mem(i).tok.B, 1)) IN
+           /\ \A i \in 1..NP : W(i) # Zero21 /\ W(i) \in wts
+           /\ Cardinality({W(i) : i \in 1..NP}) = NP
+        /\ Verifying => (Rec[l].out_zero <=> (Cfg.result = "ok"))
+        /\ pc' = "run" /\ l' = l + 1 /\ wts' = <<>>
+        /\ UNCHANGED <<scripts, abs, chal, rng, mi, r, cfg, wtid, cx, tb, dd, sc, acc, allp>>
 VMSMStart == /\ Is("VMSM") /\ pc = "run"
-             /\ (WeightsOnly /\ Rec[l].arith) => WeightsOk
+             /\ ~(WeightsOnly /\ Rec[l].arith /\ ~CheckArith)
              /\ IF CheckArith
                 THEN /\ pc' = "red" /\ mi' = 1 /\ wts' = <<>> /\ allp' = <<>> /\ UNCHANGED l
                      /\ acc' = [Gi |-> ZeroSeq(MaxNM), Hi |-> ZeroSeq(MaxNM), H |-> Zero21, G |-> ZeroSeq(Mem(1).t)]
                 ELSE /\ pc' = "run" /\ l' = l + 1 /\ UNCHANGED <<mi, wts, acc, allp>>
-                     /\ (Verifying => (Rec[l].out_zero <=> (cfg.result = "ok")))
+                     /\ (Verifying => (Rec[l].out_zero <=> (Cfg.result = "ok")))
              /\ UNCHANGED <<scripts, abs, chal, rng, r, cfg, wtid, cx, tb, dd, sc>>
 
-Ch(i) == chal[cfg.tids[i]]
+Ch(i) == chal[Cfg.tids[i]]
 \* reduce the recorded 64-byte challenge outputs of member mi modulo l
 Red == /\ pc = "red" /\ mi <= NP
        /\ LET mb == Mem(mi)  ch == Ch(mi)  k == mb.k IN
           /\ Len(ch) = k + 3
           /\ k <= 20 /\ Pw2(k) = mb.n * mb.m       \* the final check is only ever reached with exactly log2(n*m) rounds
           /\ cx' = [n |-> mb.n, m |-> mb.m, t |-> mb.t, k |-> k, nm |-> mb.n * mb.m,
-                    y |-> Reduce(ch[1].wide), z |-> Reduce(ch[2].wide), e |-> Reduce(ch[k+3].wide),
-                    es |-> [j \in 1..k |-> Reduce(ch[2+j].wide)], yinv |-> ch[1].inv, esinv |-> [j \in 1..k |-> ch[2+j].inv]]
+                    y |-> Reduce(Rec[ch[1].pos].wide), z |-> Reduce(Rec[ch[2].pos].wide), e |-> Reduce(Rec[ch[k+3].pos].wide),
+                    es |-> [j \in 1..k |-> Reduce(Rec[ch[2+j].pos].wide)], yinv |-> Rec[ch[1].pos].inv, esinv |-> [j \in 1..k |-> Rec[ch[2+j].pos].inv]]
        /\ pc' = "tab0" /\ UNCHANGED <<l, scripts, abs, chal, rng, mi, r, cfg, wtid, tb, dd, sc, acc, wts, allp>>
 \* claimed inverses are checked, not trusted
 Tab0 == /\ pc = "tab0"
@@ -130,7 +140,7 @@ RECURSIVE SumLRn(_,_,_)
 SumLRn(nr, kk, j) == IF j > cx.k THEN Zero21
                      ELSE FAdd(FAdd(FMul(FMul(cx.es[j], cx.es[j]), nr.dL[j][kk]), FMul(FMul(cx.esinv[j], cx.esinv[j]), nr.dR[j][kk])), SumLRn(nr, kk, j + 1))
 MaskOk(mb) ==
-  IF cfg.mode = "VerifyOnly" \/ ~mb.seeded THEN mb.mask = <<>>
+  IF Cfg.mode = "VerifyOnly" \/ ~mb.seeded THEN mb.mask = <<>>
   ELSE /\ Len(mb.mask) = cx.t
        /\ \A kk \in 1..cx.t :
             mb.d1[kk] = FAdd(mb.nref.eta[kk], FAdd(FMul(cx.e, mb.nref.d[kk]),
@@ -158,7 +168,7 @@ Acc == /\ pc = "acc"
                           \o [j \in 1..cx.k |-> <<mb.tok.L[j], FMul(w, S!RefL(sc, cx, j))>>]
                           \o [j \in 1..cx.k |-> <<mb.tok.R[j], FMul(w, S!RefR(sc, cx, j))>>]
                           \o [j \in 1..cx.m |-> <<mb.tok.C[j], FMul(w, S!RefV(tb, sc, j))>>]
-          /\ (cfg.result = "ok") => MaskOk(mb)
+          /\ (Cfg.result = "ok") => MaskOk(mb)
           /\ acc' = [Gi |-> [x \in 1..Len(acc.Gi) |-> IF x <= cx.nm THEN FAdd(acc.Gi[x], FMul(w, S!RefGi(tb, sc, x-1))) ELSE acc.Gi[x]],
                      Hi |-> [x \in 1..Len(acc.Hi) |-> IF x <= cx.nm THEN FAdd(acc.Hi[x], FMul(w, S!RefHi(tb, dd, sc, cx, cx.nm, x-1))) ELSE acc.Hi[x]],
                      H  |-> FAdd(acc.H, FMul(w, S!RefH(tb, sc, cx, rsp, mb.prom, cx.m))),
@@ -186,26 +196,26 @@ Fin == /\ pc = "fin"
                  Toks == {full[i][1] : i \in 1..Len(full)} \cup {e.obs[i][1] : i \in 1..Len(e.obs)} IN
              \* (the identity point contributes nothing whatever scalar it carries: a commitment to zero with zero blindings)
              \A tk \in Toks \ {e.idtok} : Obs(tk) = ExpSum(full, tk, 1)
-          /\ Verifying => (e.out_zero <=> (cfg.result = "ok"))
+          /\ Verifying => (e.out_zero <=> (Cfg.result = "ok"))
        /\ pc' = "run" /\ l' = l + 1
        /\ UNCHANGED <<scripts, abs, chal, rng, mi, r, cfg, wtid, cx, tb, dd, sc, acc, wts, allp>>
 
 \* a call that never reached the final check must not have accepted (unless it was asked not to verify)
-RecoverArith == CheckArith /\ Is("VNoMSM") /\ cfg.mode = "RecoverOnly" /\ cfg.result = "ok" /\ NP >= 1
+RecoverArith == CheckArith /\ Is("VNoMSM") /\ Cfg.mode = "RecoverOnly" /\ Cfg.result = "ok" /\ NP >= 1
 VNoMSMEv == /\ (Is("VNoMSM") \/ Is("VSkip")) /\ pc = "run"
-            /\ (Is("VNoMSM") /\ Verifying) => cfg.result # "ok"
+            /\ (Is("VNoMSM") /\ Verifying) => Cfg.result # "ok"
             /\ IF RecoverArith
                THEN /\ pc' = "red" /\ mi' = 1 /\ wts' = <<>> /\ acc' = <<>> /\ UNCHANGED <<l, r, cx, tb, dd, sc, allp>>     \* micro-steps, then consume
                ELSE /\ l' = l + 1 /\ UNCHANGED pc /\ UNCHANGED avars
             /\ UNCHANGED <<scripts, abs, chal, rng, cfg, wtid>>
 
 VRetEv == /\ Is("VRet") /\ pc = "run"
-          /\ Strict => \A i \in 1..NP : i <= Len(cfg.tids) =>
-                IF cfg.result = "ok" THEN T!Matches(scripts[cfg.tids[i]], T!Script(Mem(i)))
-                ELSE T!MatchesPrefix(scripts[cfg.tids[i]], T!Script(Mem(i)))
+          /\ Strict => \A i \in 1..NP : i <= Len(Cfg.tids) =>
+                IF Cfg.result = "ok" THEN T!Matches(scripts[Cfg.tids[i]], T!Script(Mem(i)))
+                ELSE T!MatchesPrefix(scripts[Cfg.tids[i]], T!Script(Mem(i)))
           /\ pc' = "idle" /\ l' = l + 1 /\ UNCHANGED <<scripts, abs, chal, rng, cfg, wtid>> /\ UNCHANGED avars
 
-Next == VCallEv \/ MerlinEv \/ VMSMStart \/ Red \/ Tab0 \/ TabStep \/ Scal \/ RecStep \/ Acc \/ Fin \/ VNoMSMEv \/ VRetEv
+Next == VCallEv \/ MerlinEv \/ VMSMStart \/ WStart \/ WChk \/ Red \/ Tab0 \/ TabStep \/ Scal \/ RecStep \/ Acc \/ Fin \/ VNoMSMEv \/ VRetEv
 Spec == Init /\ [][Next]_vars
 
 \* ---- acceptance: every event consumed --------------------------------------------------------------
